@@ -185,3 +185,39 @@ Proof.
   - tauto.
   - rewrite andb_true_iff, pval_eqb_eq, IH. split; [intros [-> ->]; reflexivity|intros E; inversion E; auto].
 Qed.
+
+(* ---------- call normalisation yields validated values ---------- *)
+Lemma norm_typed : forall d v x, ParamName.norm d v = Ok x -> typed d x = true.
+Proof.
+  fix IH 1. intros d v x H. destruct d as [| | | |d'|n| |ds].
+  - destruct v; simpl in H; try discriminate; inversion H; reflexivity.
+  - destruct v; simpl in H; try discriminate.
+    + destruct (_ && _) eqn:E; [|discriminate]. inversion H. simpl. apply andb_true_iff in E. tauto.
+    + destruct (float_ok r) eqn:E; [|discriminate]. inversion H. simpl. assumption.
+    + inversion H. destruct b; reflexivity.
+  - destruct v; simpl in H; try discriminate; inversion H; reflexivity.
+  - destruct v; simpl in H; try discriminate; inversion H; reflexivity.
+  - assert (forall y, typed d' y = true -> typed (DOpt d') y = true) as L by (intros y Hy; destruct y; simpl; auto).
+    destruct v; simpl in H; try (inversion H; reflexivity); apply L; eapply IH; eassumption.
+  - destruct v; simpl in H; try discriminate. destruct (N.ltb i n) eqn:E; [|discriminate]. inversion H. simpl. assumption.
+  - destruct v; simpl in H; try discriminate; inversion H; reflexivity.
+  - destruct v; try discriminate. simpl in H.
+    match type of H with (bind ?g _) = _ => destruct g as [r|] eqn:G; simpl in H; [|discriminate] end.
+    inversion H. subst x. simpl. clear H. revert vs r G.
+    induction ds as [|d0 ds IHl]; intros vs r G; destruct vs as [|v0 vs]; try discriminate.
+    + inversion G. reflexivity.
+    + destruct (ParamName.norm d0 v0) as [x0|] eqn:N0; simpl in G; [|discriminate].
+      match type of G with (bind ?g _) = _ => destruct g as [r'|] eqn:G'; simpl in G; [|discriminate] end.
+      inversion G. subst r. rewrite (IH _ _ _ N0). simpl. eapply IHl. eassumption.
+Qed.
+
+Lemma norm_args_typed : forall fs args vs, norm_args fs args = Ok vs -> typed_all (map f_dtype fs) vs = true.
+Proof.
+  induction fs as [|f fs IH]; intros args vs H; destruct args as [|a args]; simpl in H; try discriminate.
+  - inversion H. reflexivity.
+  - match type of H with (bind ?g _) = _ => destruct g as [x|] eqn:G; simpl in H; [|discriminate] end.
+    destruct (norm_args fs args) as [xs|] eqn:G'; simpl in H; [|discriminate]. inversion H. subst vs. simpl.
+    rewrite (IH _ _ G'), andb_true_r.
+    destruct a as [v|]; [eapply norm_typed; eassumption|].
+    destruct (f_default f); [eapply norm_typed; eassumption|discriminate].
+Qed.
